@@ -77,11 +77,17 @@ LocalRes(U, dr, d, u) ==
   LET D == Doc(U, d)
   IN {q \in ResRoots(dr, D) : BaseAt(dr, D, q) = u \/ (q = <<>> /\ D.uri = u)}
 
-RemoteDocs(U, u) == {e \in DocIds(U) : e # 1 /\ U.docs[e].uri = u}
+\* other documents: what the Loader serves under u, or a document whose
+\* canonical URI (its root $id) is u.  (A schema resource is identified by its
+\* canonical URI as well as by the URI it was retrieved from; universes are
+\* built so that a canonical alias is only referenced from documents that are
+\* reached through the aliased document, i.e. after it is known.)
+RemoteDocs(U, dr, d, u) ==
+  {e \in DocIds(U) : e # d /\ (U.docs[e].uri = u \/ BaseAt(dr, U.docs[e], <<>>) = u)}
 
 FindResource(U, dr, d, u) ==
   LET loc == LocalRes(U, dr, d, u)
-      rem == RemoteDocs(U, u)
+      rem == RemoteDocs(U, dr, d, u)
   IN IF loc # {} THEN Addr(d, CHOOSE q \in loc : TRUE)
      ELSE IF rem # {} THEN Addr(CHOOSE e \in rem : TRUE, <<>>)
      ELSE NoTarget
@@ -123,6 +129,24 @@ DupAnchors(U, dr, d) ==
   IN \E q \in ResRoots(dr, D) : \E p1, p2 \in ResNodes(dr, D, q) :
         /\ p1 # p2
         /\ AnchorsOf(dr, NodeAtS(D.s, p1)) \cap AnchorsOf(dr, NodeAtS(D.s, p2)) # {}
+
+\* ---- the domain of the property ----
+\* Every $id resolves (RFC 3986 defined, result absolute unless the whole
+\* document has no absolute base and uses no $id), every reference is
+\* resolvable against its base, no two resources of a document share a URI.
+RECURSIVE ParentBase(_, _, _)
+ParentBase(dr, D, p) == IF p = <<>> THEN D.uri ELSE BaseAt(dr, D, Front(p))
+IdsOK(dr, D) ==
+  \A q \in AllPaths(D.s) :
+     IsResRoot(dr, NodeAtS(D.s, q)) =>
+        /\ Resolvable(ParentBase(dr, D, q), NodeAtS(D.s, q).id.u)
+        /\ IsAbsolute(BaseAt(dr, D, q))
+NoDupRes(dr, D) ==
+  \A q1, q2 \in ResRoots(dr, D) : q1 # q2 => BaseAt(dr, D, q1) # BaseAt(dr, D, q2)
+RefsResolvable(U, dr, d) ==
+  \A pr \in RefsOf(U, d) : Resolvable(BaseAt(dr, Doc(U, d), pr[1]), pr[2].u)
+DomainOK(U, dr) ==
+  \A d \in DocIds(U) : IdsOK(dr, Doc(U, d)) /\ NoDupRes(dr, Doc(U, d)) /\ RefsResolvable(U, dr, d) /\ ~DupAnchors(U, dr, d)
 
 ResolveOK(U, dr) ==
   \A d \in NeededDocs(U, dr) :
